@@ -4,6 +4,16 @@ import os
 
 NUM_SPELLINGS = ["i32", "u8", "i64", "f64", "usize", "u32", "i8", "i16", "i128", "isize", "u16", "u64", "u128", "f32"]
 STR_SPELLINGS = ["String", "&'static str"]
+# when set, constructors and project types are spelled with their full paths (std::option::Option<..>,
+# std::collections::HashMap<..>, crate::N0): a path-qualified type is the type its last segment names
+QUALIFIED_SPELLING = False
+QUAL = {"Option": "std::option::Option", "Vec": "std::vec::Vec", "HashSet": "std::collections::HashSet",
+        "BTreeSet": "std::collections::BTreeSet", "HashMap": "::std::collections::HashMap", "BTreeMap": "std::collections::BTreeMap",
+        "Result": "std::result::Result", "String": "std::string::String"}
+
+
+def q(name):
+    return QUAL.get(name, name) if QUALIFIED_SPELLING else name
 
 
 class Speller:
@@ -17,7 +27,7 @@ class Speller:
     def leaf(self, c):
         if c == "str":
             self.s += 1
-            return STR_SPELLINGS[self.s % 2] if self.rotate else "String"
+            return q(STR_SPELLINGS[self.s % 2] if self.rotate else "String")
         if c == "num":
             self.n += 1
             return NUM_SPELLINGS[self.n % len(NUM_SPELLINGS)] if self.rotate else "i32"
@@ -57,26 +67,28 @@ def spell(t, sp):
     k = t["k"]
     if k == "leaf":
         return sp.leaf(t["c"])
-    if k in ("named", "mapped"):
+    if k == "named":
+        return ("crate::" + t["n"]) if QUALIFIED_SPELLING else t["n"]
+    if k == "mapped":
         return t["n"]
     a = spell(t["a"], sp) if "a" in t else None
     if k == "opt":
-        return "Option<%s>" % a
+        return "%s<%s>" % (q("Option"), a)
     if k == "vec":
-        return "Vec<%s>" % a
+        return "%s<%s>" % (q("Vec"), a)
     if k == "hset":
-        return "HashSet<%s>" % a
+        return "%s<%s>" % (q("HashSet"), a)
     if k == "bset":
-        return "BTreeSet<%s>" % a
+        return "%s<%s>" % (q("BTreeSet"), a)
     if k == "ref":
         return "&'static %s" % a if not a.startswith("&") else "&'static %s" % a
     if k == "res1":
-        return "Result<%s>" % a
+        return ("anyhow::Result<%s>" if QUALIFIED_SPELLING else "Result<%s>") % a
     if k == "chan":
         return "Channel<%s>" % a
     if k in ("hmap", "bmap", "res"):
         b = spell(t["b"], sp)
-        return {"hmap": "HashMap", "bmap": "BTreeMap", "res": "Result"}[k] + "<%s, %s>" % (a, b)
+        return q({"hmap": "HashMap", "bmap": "BTreeMap", "res": "Result"}[k]) + "<%s, %s>" % (a, b)
     if k == "tup":
         parts = [spell(x, sp) for x in t["ts"]]
         if len(parts) == 1:
